@@ -1586,6 +1586,13 @@ func (sc *serverConn) processData(f *DataFrame) error {
 		return nil
 	}
 
+	// RFC 7540 Section 5.1, idle: "Receiving any frame other than HEADERS
+	// or PRIORITY on a stream in this state MUST be treated as a connection
+	// error (Section 5.4.1) of type PROTOCOL_ERROR."
+	if state, _ := sc.state(id); state == stateIdle {
+		return ConnectionError{ErrCodeProtocol, "recv DATA for stream in Idle state"}
+	}
+
 	data := f.Data()
 
 	// "If a DATA frame is received whose stream is not in "open"
